@@ -22,7 +22,7 @@ TIERS = {
 RULE = ('run kinds: heap (seeded alloc/free histories, 3-800 steps, shapes uniform / burst-then-free / adversarial address-order frees; checked after every step), '
         'map (seeded circuit x capacity vector x c_reuse x strip_forks -> real SimOps; static bounds/alias/pinned-slot checks + order-independent token execution), '
         'dyn (real waveform propagation under M2 shadow ownership with dead-storage poison at every level boundary, 1-3 reuse batches), '
-        'big (thorough only: the shipped netlists b01.bench / b15_2ig.v.gz with random capacity vectors through the token executor). '
+        'big (one case in the quick tier, one in 4000 in the thorough tier: the shipped netlists b01.bench / b15_2ig.v.gz with random capacity vectors through the token executor). '
         'non-trivial: heap history in which a freed chunk was handed out again or a free coalesced on both sides; map/dyn run with c_reuse in which some chunk was actually recycled for another signal; '
         'distinct = distinct case digests')
 REAL_VS_STUB = {'real': ['kyupy.sim.Heap', 'kyupy.sim.SimOps.__init__ (ref-counts, level-wise allocation, aliasing, c_len)', 'dyn: kyupy.wave_sim kernels and host code'],
@@ -37,8 +37,8 @@ TESTS = '/repo/tests'
 
 def gen(rng, tier, i):
     r = rng.random()
-    if tier == 'thorough' and i % 4000 == 17:
-        return {'mode': 'big', 'net': rng.choice(['b01', 'b15', 'b15']), 'caps': {'default': 16, 'vec': [rng.choice([4, 8, 16, 32]) for _ in range(rng.randint(3, 50))]},
+    if (tier == 'thorough' and i % 4000 == 17) or (tier == 'quick' and i == 17):      # (quick: one shipped netlist - sizes beyond 2**15 references / 2**16 rows occur only there)
+        return {'mode': 'big', 'net': rng.choice(['b01', 'b15', 'b15']) if tier == 'thorough' else 'b15', 'caps': {'default': 16, 'vec': [rng.choice([4, 8, 16, 32]) for _ in range(rng.randint(3, 50))]},
                 'flavour': rng.choice(['wave', 'logic']), 'branchforks': rng.random() < 0.5}
     if r < 0.40: return heapsim.gen_history(rng, tier)
     script = cgen.gen_script(rng, max_gates=rng.choice([8, 16, 30, 40]), max_in=6, max_ff=3)
